@@ -71,3 +71,15 @@ func TestDebugReplaySKeep(t *testing.T) {
 	}
 	x.Destroy()
 }
+
+func TestDebugE(t *testing.T) {
+	var c ECase
+	if err := loadCaseFile(os.Getenv("DBG_FILE"), &c); err != nil {
+		t.Fatal(err)
+	}
+	f, trace, labels, err := runECase(c)
+	fmt.Println("FAIL:", f, "ERR:", err, labels)
+	for _, l := range trace {
+		fmt.Println(l)
+	}
+}
